@@ -237,12 +237,14 @@ CONSTANTS
   MaxQos = {mq}
   AliasMax = {am}
   Strict = {strict}
+  GateStop = {gs}
+  Ends <- {ends}
 VIEW view
 INVARIANT TypeOk
 CHECK_DEADLOCK FALSE
 """
 
-INB_DEFAULTS = dict(extra="XNone", mr=0, mrs=0, rm=0, mq=2, am=2, strict=0)
+INB_DEFAULTS = dict(extra="XNone", mr=0, mrs=0, rm=0, mq=2, am=2, strict=0, gs="FALSE", ends="ENone")
 
 
 def ep_cfg(params):
@@ -256,7 +258,18 @@ def ep_cfg(params):
         cfg["max_topic_alias" if role == "server" else "client_topic_alias_max"] = params["am"]
     if params.get("strict"):
         cfg["strict"] = params["strict"]
+    if params.get("gs") == "TRUE":
+        cfg["gate_stop"] = 1
     return cfg
+
+
+EP_ENDS = {
+    "peer_close": [{"c": "mark", "e": "cause", "k": "stop_peer"}, {"c": "peer_close"}],
+    "raw": [{"c": "mark", "e": "cause", "k": "stop_proto"}, {"c": "in", "p": {"t": "raw", "hex": "00 00"}}],
+    "rawq": [{"c": "in", "p": {"t": "raw", "hex": "00 00"}}],
+    "close": [{"c": "mark", "e": "cause", "k": "stop_peer"}, {"c": "close", "k": "close"}],
+    "force": [{"c": "mark", "e": "cause", "k": "stop_peer"}, {"c": "close", "k": "force"}],
+}
 
 
 def ep_pkt(p, ver, vary, npub):
@@ -306,6 +319,8 @@ def inb_decode_for(params):
                 cmds.append({"c": "in", "p": pk[0]} if len(pk) == 1 else {"c": "in", "pkts": pk})
             elif t["a"] == "c":
                 cmds.append(okc({"c": "complete", "h": t["h"], "o": t["o"], "code": 135}))
+            elif t["a"] == "x":
+                cmds += EP_ENDS[t["o"]]
             else:
                 raise ValueError(t)
         cmds.append({"c": "drain"})
@@ -342,7 +357,7 @@ def inb_tok2rec(t):
 def inb_project(e):
     # h_start.r carries the PUBLISH flags the handler saw, h_end.r the armed code (decided by ProtoMon's C03
     # rules, not by the model); x: only the topic a publish handler was given is compared
-    return dict(e=e["e"], k=e["k"], s=e["s"], id=e["id"], q=e["q"], r=0 if e["e"] in ("h_start", "h_end") else e["r"],
+    return dict(e=e["e"], k=e["k"], s=e["s"], id=e["id"], q=e["q"], r=0 if e["e"] in ("h_start", "h_end", "ctl") else e["r"],
                 x=e["x"] if e["e"] == "h_start" and e["k"] == "pub" else "")
 
 
@@ -926,8 +941,25 @@ def c07_decode_for(role, ver):
     return dec
 
 
-def c07_configs(tier):
+def c07_model_configs(tier):
+    """teardown behaviours of the implementation-shaped model: every cause at every point of every short history of
+    gated / armed publish and control handlers, Stop handled at once or on command"""
+    T, F = "TRUE", "FALSE"
+    n = 3 if tier == "quick" else 4
+    q = 400 if tier == "quick" else 100000
     cs = []
+    for ver in (3, 5):
+        for role in ("server", "client"):
+            srv = role == "server"
+            cs.append(ep_config(f"m_v{ver}{role[0]}_end", quota=q, ver=ver, role=role, ids="Ids12" if tier != "quick" else "Ids1", n=n,
+                                kinds="KEnd" if srv else "KPub01", outs="OErr", imm=T, gp=T if srv else F, ends="EAll"))
+            cs.append(ep_config(f"m_v{ver}{role[0]}_slow", quota=q, ver=ver, role=role, ids="Ids12", n=n,
+                                kinds="KPub12" if srv else "KPub01", outs="OOk", imm=F, gp=F, ends="EPeer", gs=T))
+    return cs
+
+
+def c07_configs(tier):
+    cs = c07_model_configs(tier)
     for ver in (3, 5):
         for role in ("server", "client"):
             ns = len(c07_scenarios(role, ver))
